@@ -14,7 +14,7 @@ EXPLANATION = (
     "3.10 model; both must give back the input mapping (consecutive equal lines merged) for all gap values.")
 BOUNDS = {
     "quick": "k = 1..3 entries (first at offset 0); offset gaps 1..600; line gaps split by region: small "
-             "(0..127, or -128..127 for signed formats), big-positive (128..600), negative (-300..-1); "
+             "(0..127), small with a decrease (-128..127, signed formats), big-positive (128..600), negative (-300..-1); "
              "first line 1..10^6; list form (dict form with concrete offsets for k=2)",
     "thorough": "k = 1..4 entries, same gap regions",
 }
@@ -50,7 +50,9 @@ def make_ob(label, vt, signed, oracle, k, region, form, decoder, tier):
     for i in range(1, k):
         params.append(("g%d" % i, (1, 600)))
         if region == "small":
-            params.append(("d%d" % i, (-128 if signed else 0, 127)))
+            params.append(("d%d" % i, (0, 127)))
+        elif region == "smallneg":
+            params.append(("d%d" % i, (-128, 127)))
         elif region == "bigpos":
             params.append(("d%d" % i, (0, 600)))
         else:
@@ -60,6 +62,8 @@ def make_ob(label, vt, signed, oracle, k, region, form, decoder, tier):
         if region == "small" or k == 1:
             return True
         ds = [kw["d%d" % i] for i in range(1, k)]
+        if region == "smallneg":
+            return any(d < 0 for d in ds)
         if region == "bigpos":
             return any(d >= 128 for d in ds)
         return any(d < 0 for d in ds)
@@ -103,7 +107,8 @@ def make_ob(label, vt, signed, oracle, k, region, form, decoder, tier):
                 want.append((o, l))
         tbl = code.co_linetable if hasattr(code, "co_linetable") else code.co_lnotab
         if decoder == "xdis":
-            got = list(X.findlinestarts(code))
+            from props.common import opc_tables
+            got = list(opc_tables()["opcode_%d%d" % vt].findlinestarts(code))
             assert _pairs_eq(got, want), "roundtrip-xdis: decoded %r, input %r (table %r)" % (got, want, tbl)
         else:
             if isinstance(tbl, str):
@@ -136,10 +141,10 @@ def generate(tier, seed):
     kmax = 3 if tier == "quick" else 4
     for label, vt, signed, oracle in TARGETS:
         for k in range(1, kmax + 1):
-            for region in ("small", "bigpos", "neg"):
+            for region in ("small", "smallneg", "bigpos", "neg"):
                 if k == 1 and region != "small":
                     continue
-                if region == "neg" and not signed:
+                if region in ("neg", "smallneg") and not signed:
                     continue  # the unsigned formats cannot represent decreasing lines (outside the statement)
                 for decoder in ("xdis", "cpython"):
                     obs.append(make_ob(label, vt, signed, oracle, k, region, "list", decoder, tier))
